@@ -46,6 +46,7 @@ def jobs(tier, seed):
 
 # ------------------------------------------------------------------------------------------------ helpers
 def mval(m, e):
+    if isinstance(e, (int, bool, str)): return e
     v = m.eval(e, model_completion=True)
     if z3.is_int_value(v): return v.as_long()
     if z3.is_true(v): return True
@@ -80,8 +81,8 @@ def job_formation_limit(name, tier):
             exp = (min([x for x in ([mval(m, tv)] if mval(m, tp) else []) + ([mval(m, sv)] if mval(m, sp_) else [])]) if (mval(m, tp) or mval(m, sp_)) else None)
             return dict(signature=sig, what='maximal formation count of a segment is not the minimum of the limits that are present (%s)' % sig,
                         scenario=dict(instance=NB.to_json(net, m), ops=[dict(op='formation_limit', node=node_id(net, t))]), expect=[exp])
-        J.prove(pc, z3.And(spec_present == gp, z3.Implies(spec_present, got_val == spec_val)), 'formation-limit = min of present limits', mk)
-        J.sample('maximal_formation_count_for(trip) == min(present limits); path returns present=%s value=%s' % (z3.simplify(gp), z3.simplify(got_val)))
+        J.prove(pc, z3.And(spec_present == Z(gp), z3.Implies(spec_present, Z(got_val) == spec_val)), 'formation-limit = min of present limits', mk)
+        J.sample('maximal_formation_count_for(trip) == min(present limits); path returns present=%s value=%s' % (sx(gp), sx(got_val)))
     return J.result()
 
 def job_required(name, tier):
@@ -127,7 +128,7 @@ def job_depot_capacity(name, tier):
             d = net.depots[0]; a = d['allowed'][0]
             spec = z3.IntVal(0) if a[0] == 'absent' else (d['cap'] if a[0] == 'none' else z3.If(a[1] < d['cap'], a[1], d['cap']))
             J.prove(pc, z3.And(res.e == spec, tot.e == d['cap']), 'depot capacity for a type = min(per-type, total); 0 if the type is not listed')
-            J.sample('Depot::capacity_for with allowed_types[type]=%s == %s' % (allowed, z3.simplify(spec)))
+            J.sample('Depot::capacity_for with allowed_types[type]=%s == %s' % (allowed, sx(spec)))
     return J.result()
 
 def _net_for_pairs(ex, tier):
@@ -242,32 +243,32 @@ def job_network_new(name, tier, trips, maint, two_types=False):
         if isinstance(a, Scalar) and isinstance(b, Scalar): out.append((path, a.e == b.e)); return
         if isinstance(a, Agg) and isinstance(b, Agg):
             if a.ty == 'Arc': return same(ex, a.fields[0].v, b.fields[0].v, path, out)
-            if a.variant != b.variant or len(a.fields) != len(b.fields): out.append((path, z3.BoolVal(False))); return
+            if a.variant != b.variant or len(a.fields) != len(b.fields): out.append((path, False)); return
             for i, (x, y) in enumerate(zip(a.fields, b.fields)): same(ex, x, y, path + '.%d' % i, out)
             return
         if isinstance(a, (Agg, Lazy)) and isinstance(b, (Agg, Lazy)): out.append((path, M.val_eq(ex, a, b))); return
         if isinstance(a, VecVal) and isinstance(b, VecVal):
-            if len(a.cells) != len(b.cells): out.append((path + '.len', z3.BoolVal(False))); return
+            if len(a.cells) != len(b.cells): out.append((path + '.len', False)); return
             for i, (x, y) in enumerate(zip(a.cells, b.cells)): same(ex, x.v, y.v, path + '[%d]' % i, out)
             return
         if isinstance(a, MapVal) and isinstance(b, MapVal):
-            if len(a.entries) != len(b.entries): out.append((path + '.len', z3.BoolVal(False))); return
+            if len(a.entries) != len(b.entries): out.append((path + '.len', False)); return
             # keys are structurally concrete (ids) or time-keyed tuples: match by value equality of keys
             for k, c in a.entries:
                 hit = None
                 for k2, c2 in b.entries:
-                    e = z3.simplify(M.val_eq(ex, k, k2))
-                    if z3.is_true(e): hit = c2; break
+                    e = M.val_eq(ex, k, k2)
+                    if e is True or (not isinstance(e, bool) and z3.is_true(z3.simplify(e))): hit = c2; break
                 if hit is None:
                     # symbolic keys (time, idx): pair by the concrete NodeIdx component
                     for k2, c2 in b.entries:
-                        if isinstance(k, Agg) and k.ty == 'tuple' and z3.is_true(z3.simplify(M.val_eq(ex, k.fields[-1], k2.fields[-1]))):
+                        if isinstance(k, Agg) and k.ty == 'tuple' and M.val_eq(ex, k.fields[-1], k2.fields[-1]) is True:
                             out.append((path + '.key', M.val_eq(ex, k, k2))); hit = c2; break
-                if hit is None: out.append((path + '.key?', z3.BoolVal(False))); continue
+                if hit is None: out.append((path + '.key?', False)); continue
                 same(ex, c.v, hit.v, path + '{}', out)
             return
         if isinstance(a, StrVal) and isinstance(b, StrVal): return
-        out.append((path + ':' + type(a).__name__ + '/' + type(b).__name__, z3.BoolVal(False)))
+        out.append((path + ':' + type(a).__name__ + '/' + type(b).__name__, False))
     for pc, r in J.explore(body, max_paths=20000):
         if isinstance(r, Panic): J.panic(pc, r); continue
         net, res = r; J.reached += 1
@@ -277,12 +278,12 @@ def job_network_new(name, tier, trips, maint, two_types=False):
                 continue
             out = []
             same(ex, res.fields[F.index(f)], net.nw.fields[F.index(f)], f, out)
-            J.prove(pc, z3.And(*[c for p_, c in out]) if out else z3.BoolVal(True), 'Network::new field %s = reference construction' % f)
+            J.prove(pc, z_and(*[c for p_, c in out]), 'Network::new field %s = reference construction' % f)
         # depots: every given depot unchanged, overflow depot last with capacity >= sum over trips of min(required, limit)
         dres = res.fields[F.index('depots')]; dref = net.nw.fields[F.index('depots')]
         out = []
         same(ex, MapVal(dres.entries[:-1]), MapVal(dref.entries[:-1]), 'depots', out)
-        J.prove(pc, z3.And(*[c for p_, c in out]), 'given depots are kept with their capacities')
+        J.prove(pc, z_and(*[c for p_, c in out]), 'given depots are kept with their capacities')
         ov = [c.v for k, c in dres.entries if conc(k.fields[0]) == net.ndep]
         if len(ov) != 1: J.prove(pc, z3.BoolVal(False), 'overflow depot exists'); continue
         ovd = ov[0].fields[0]; cap = NB.fld(ovd, 'Depot', 'total_capacity').e
